@@ -36,9 +36,12 @@ H3 == PlainFile(<<>>, "notes.txt", "h3", "txt")
 A0 == [items |-> <<>>, rec |-> FALSE, i18n |-> "", dirs |-> <<>>, src |-> <<>>, srcabs |-> TRUE, srctext |-> "",
        tgt |-> <<>>, tgtslash |-> FALSE, rel |-> FALSE, hx |-> <<>>]
 Items(s, r) == [A0 EXCEPT !.items = s, !.rec = r]
-DestOp(op, path) == [op |-> op, path |-> path, mode |-> 0, h |-> "-", a |-> A0]
-ModeOp(op, m)    == [op |-> op, path |-> <<>>, mode |-> m, h |-> "-", a |-> A0]
-CallOp(h, a)     == [op |-> "call", path |-> <<>>, mode |-> 0, h |-> h, a |-> a]
+\* own: ownership options given together with the mode ("" none, "o" -o0, "g" -g0, "og" both); ownership
+\* itself is not judged (the checks run as root) but the requested mode must survive it
+DestOp(op, path) == [op |-> op, path |-> path, mode |-> 0, own |-> "", h |-> "-", a |-> A0]
+ModeOwn(op, m, own) == [op |-> op, path |-> <<>>, mode |-> m, own |-> own, h |-> "-", a |-> A0]
+ModeOp(op, m)    == ModeOwn(op, m, "")
+CallOp(h, a)     == [op |-> "call", path |-> <<>>, mode |-> 0, own |-> "", h |-> h, a |-> a]
 Script(eapi, tag, steps) == [eapi |-> eapi, tag |-> tag, steps |-> steps]
 
 \* argument vectors: one or two distinct items
@@ -90,5 +93,43 @@ Twice == {Script(8, "twice", <<DestOp("insinto", <<"etc", "x">>), CallOp("doins"
             : v \in {<<F1>>, <<D1>>, <<L1>>}}
          \cup {Script(8, "twice", <<CallOp("dodoc", Items(<<D1>>, TRUE)), CallOp("dodoc", Items(<<D1>>, TRUE))>>)}
 
-Cases == Doins \cup Doexe \cup Bins \cup Dolib \cup Dodoc \cup Doman \cup Domo \cup Dohtml \cup Dodirs \cup Dosym \cup Dohard \cup Twice
+(* dosym -r where the link's directory and the source share a STRING prefix that is not a path prefix
+   (lib / lib64, doc / doc-extra, li / lib, a / ab), next to sources really below / equal to that directory.
+   Tags starting with "all-" are small and replayed completely even in the quick tier.                    *)
+PrefixPairs == {
+    << "/usr/lib64/libfoo.so.1", <<"usr", "lib64", "libfoo.so.1">>, <<"usr", "lib", "libfoo.so">> >>,
+    << "/usr/share/doc-extra/x", <<"usr", "share", "doc-extra", "x">>, <<"usr", "share", "doc", "y">> >>,
+    << "/usr/lib/sub/x", <<"usr", "lib", "sub", "x">>, <<"usr", "lib", "y">> >>,
+    << "/usr/lib", <<"usr", "lib">>, <<"usr", "lib", "y">> >>,
+    << "/usr/li/x", <<"usr", "li", "x">>, <<"usr", "lib", "y">> >>,
+    << "/ab/c", <<"ab", "c">>, <<"a", "l">> >>,
+    << "/usr/libx", <<"usr", "libx">>, <<"usr", "lib", "y">> >> }
+DosymPrefix == {Script(8, "all-dosym-prefix", <<SymCall(p[1], p[2], TRUE, p[3], FALSE, TRUE)>>) : p \in PrefixPairs}
+
+(* set-uid / set-gid / sticky modes combined with owner / group options, for every helper that takes
+   insopts / exeopts / diropts / libopts                                                              *)
+M4755 == 2541
+M2755 == 1517
+M6711 == 3529
+M1755 == 1005
+M2750 == 1512
+M1777 == 1023
+M2775 == 1533
+SetIdFixed == {
+    Script(8, "all-setid", <<DestOp("insinto", <<"etc", "x">>), ModeOwn("insopts", M4755, "og"), CallOp("doins", Items(<<F1>>, FALSE))>>),
+    Script(8, "all-setid", <<DestOp("insinto", <<"etc", "x">>), ModeOwn("insopts", M6711, "o"), ModeOwn("diropts", M2750, "og"),
+                             CallOp("doins", Items(<<D1, F1>>, TRUE))>>),
+    Script(8, "all-setid", <<DestOp("exeinto", <<"opt", "e">>), ModeOwn("exeopts", M4755, "og"), CallOp("doexe", Items(<<F1>>, FALSE))>>),
+    Script(0, "all-setid", <<DestOp("exeinto", <<"opt", "e">>), ModeOwn("exeopts", M2755, "g"), CallOp("doexe", Items(<<F1, F2>>, FALSE))>>),
+    Script(6, "all-setid", <<ModeOwn("libopts", M2755, "og"), CallOp("dolib", Items(<<F1>>, FALSE))>>),
+    Script(8, "all-setid", <<ModeOwn("diropts", M1777, "og"), CallOp("dodir", [A0 EXCEPT !.dirs = << <<"var", "k">> >>])>>),
+    Script(8, "all-setid", <<ModeOwn("diropts", M2775, "g"), CallOp("keepdir", [A0 EXCEPT !.dirs = << <<"var", "k">>, <<"var", "j">> >>])>>) }
+SetIdModes == {M4755, M2755, M6711, M1755}
+SetId == {Script(8, "setid", <<DestOp("insinto", <<"etc", "x">>), ModeOwn("insopts", m, o), CallOp("doins", Items(<<F1>>, FALSE))>>) : m \in SetIdModes, o \in {"", "o", "g", "og"}}
+    \cup {Script(8, "setid", <<DestOp("insinto", <<"etc", "x">>), ModeOwn("diropts", m, o), CallOp("doins", Items(<<D1>>, TRUE))>>) : m \in {M2750, M1777, M2775}, o \in {"", "o", "g", "og"}}
+    \cup {Script(8, "setid", <<DestOp("exeinto", <<"opt", "e">>), ModeOwn("exeopts", m, o), CallOp("doexe", Items(<<F1>>, FALSE))>>) : m \in SetIdModes, o \in {"", "o", "g", "og"}}
+    \cup {Script(6, "setid", <<ModeOwn("libopts", m, o), CallOp("dolib", Items(<<F1>>, FALSE))>>) : m \in SetIdModes, o \in {"", "o", "g", "og"}}
+    \cup {Script(8, "setid", <<ModeOwn("diropts", m, o), CallOp(h, [A0 EXCEPT !.dirs = << <<"var", "k">> >>])>>) : h \in {"dodir", "keepdir"}, m \in {M2750, M1777, M2775}, o \in {"", "o", "g", "og"}}
+
+Cases == DosymPrefix \cup SetIdFixed \cup SetId \cup Doins \cup Doexe \cup Bins \cup Dolib \cup Dodoc \cup Doman \cup Domo \cup Dohtml \cup Dodirs \cup Dosym \cup Dohard \cup Twice
 =========================================================================
